@@ -139,7 +139,9 @@ class Harness(object):
             return
         n_tries = 2 if case["n_tries"] is None else case["n_tries"]
         self.distinct.add(describe_key(case))
-        tag = "preexisting_waiting" if pre else None
+        # known defect D11: another core of the same application already waits -> the count-based check is fooled;
+        # variant: a REQUESTED core already waits with an earlier binary -> the state read-back cannot tell old from new
+        tag = None if not pre else "preexisting_waiting_requested" if (pre[0], pre[1]) in requested else "preexisting_waiting"
 
         # ---- every flood-fill is well formed ----------------------------------------------------------
         if cur[0] is not None:
@@ -220,7 +222,7 @@ class Harness(object):
                 if a != b and not (raised is None and not wait and b[0] == _scamp.ST_WAIT and b[1] == app_id and a == (_scamp.ST_RUN, b[1], b[2])):
                     return self.report("unrequested_core_changed", "core %r was not requested but went from (state, app) %r to %r%s" % (
                         (xy[0], xy[1], p), b[:2], a[:2], ", now holding binary %s" % label_of[a[2]] if a[2] in label_of else ""), case)
-        if len(self.samples) < 3 and self.ev % 97 == 5:
+        if len(self.samples) < 3 and self.ev % 1499 == 5:
             self.samples.append(describe(case))
 
 
@@ -230,7 +232,7 @@ def short(m):
 
 def describe(case):
     return {"targets": {lab: {"%d,%d" % c: sorted(ps) for c, ps in t.items()} for lab, t in case["targets"].items()},
-            "binary_sizes": case["sizes"], "buffer": case["buffer"],
+            "binary_sizes": {lab: n for lab, n in case["sizes"].items() if lab in case["targets"]}, "buffer": case["buffer"],
             "chips_missing_fill(binary,attempt)": {"%s,%d" % k: sorted(v) for k, v in case["schedule"].items() if v},
             "packet_level_misses_per_fill": [{"%d,%d" % c: sorted(str(x) for x in v) for c, v in f.items()} for f in case.get("fine") or []],
             "wait": case["wait"], "use_count": case["use_count"], "n_tries": case["n_tries"], "app_id": case["app_id"],
@@ -352,9 +354,9 @@ def run(tier="quick", seed=0):
             for pre in pres:
                 per_label = [[(lab, ch) for ch in chains(sorted(real[lab]), 1)] for lab in sorted(real)]
                 for combo in itertools.product(*per_label):
+                    k += 1
                     for wait, use_count in itertools.product((False, True), repeat=2):
-                        k += 1
-                        if tier == "quick" and k % 2:
+                        if tier == "quick" and (k + wait) % 2:
                             continue
                         sched = {(lab, 1): set(ch[0]) for lab, ch in combo}
                         counts["pre"] += 1
@@ -372,7 +374,7 @@ def run(tier="quick", seed=0):
                     "sets of targeted chips missing the fill of each binary (n_tries=1%s) x wait x use_count, sizes rotated through %r;  (3) (%d) maps over 3 chips x 2 "
                     "cores (%s) with seeded chains, n_tries default/0/1/3;  (4) (%d) seeded packet-level losses (start, core selection, one data block, end) per "
                     "fill;  (5) (%d) the maps of (2) with one core of the same app already waiting on an unrequested chip / an unrequested core of a requested chip / "
-                    "a requested core, every first-attempt miss set (clause preexisting_waiting).  Checked from the packets: start..end bracketing, announced == "
+                    "a requested core, every first-attempt miss set (clauses preexisting_waiting / preexisting_waiting_requested).  Checked from the packets: start..end bracketing, announced == "
                     "blocks sent, numbering 0.., each block <= buffer with matching size field, contiguous addresses from sdram_sys, reassembly == a requested "
                     "binary, core selections strictly increasing and non-empty, end packet (id, app, wait flag), even ids 2..252 changing per fill, first fill of a "
                     "binary selects exactly its cores (and nothing elsewhere on a 256x256 machine), later fills select only cores of that binary still missing, <= "
